@@ -144,6 +144,10 @@ impl<K: Ord + Clone, V: Clone> LeafNode<K, V> {
     /// ```
     #[inline]
     pub unsafe fn get_key_unchecked(&self, index: usize) -> &K {
+        #[cfg(kentbeck_bplustree3_verif)]
+        if index >= self.keys.len() {
+            panic!("VERIF-HOOK get_key_unchecked: index {} outside keys", index);
+        }
         self.keys.get_unchecked(index)
     }
 
@@ -169,6 +173,10 @@ impl<K: Ord + Clone, V: Clone> LeafNode<K, V> {
     /// ```
     #[inline]
     pub unsafe fn get_value_unchecked(&self, index: usize) -> &V {
+        #[cfg(kentbeck_bplustree3_verif)]
+        if index >= self.values.len() {
+            panic!("VERIF-HOOK get_value_unchecked: index {} outside values", index);
+        }
         self.values.get_unchecked(index)
     }
 
@@ -196,6 +204,13 @@ impl<K: Ord + Clone, V: Clone> LeafNode<K, V> {
     /// ```
     #[inline]
     pub unsafe fn get_key_value_unchecked(&self, index: usize) -> (&K, &V) {
+        #[cfg(kentbeck_bplustree3_verif)]
+        if index >= self.keys.len() || index >= self.values.len() {
+            panic!(
+                "VERIF-HOOK get_key_value_unchecked: index {} outside keys/values",
+                index
+            );
+        }
         (
             self.keys.get_unchecked(index),
             self.values.get_unchecked(index),
@@ -716,5 +731,33 @@ impl<K: Ord + Clone, V: Clone> BranchNode<K, V> {
         // Add all keys and children from other
         self.keys.append(&mut other.keys);
         self.children.append(&mut other.children);
+    }
+}
+
+/// Verification hooks (compiled only with `--cfg kentbeck_bplustree3_verif`):
+/// raw access to the `pub(crate)` node fields, for state dumps and for injecting one
+/// precise kind of structural damage.
+#[cfg(kentbeck_bplustree3_verif)]
+impl<K, V> LeafNode<K, V> {
+    pub fn verif_fields(&self) -> (usize, &Vec<K>, &Vec<V>, NodeId) {
+        (self.capacity, &self.keys, &self.values, self.next)
+    }
+    pub fn verif_fields_mut(&mut self) -> (&mut usize, &mut Vec<K>, &mut Vec<V>, &mut NodeId) {
+        (
+            &mut self.capacity,
+            &mut self.keys,
+            &mut self.values,
+            &mut self.next,
+        )
+    }
+}
+
+#[cfg(kentbeck_bplustree3_verif)]
+impl<K, V> BranchNode<K, V> {
+    pub fn verif_fields(&self) -> (usize, &Vec<K>, &Vec<NodeRef<K, V>>) {
+        (self.capacity, &self.keys, &self.children)
+    }
+    pub fn verif_fields_mut(&mut self) -> (&mut usize, &mut Vec<K>, &mut Vec<NodeRef<K, V>>) {
+        (&mut self.capacity, &mut self.keys, &mut self.children)
     }
 }
